@@ -6,360 +6,9 @@
 package worker
 
 import (
-	"encoding/json"
-	"flag"
-	"fmt"
-	"os"
-	"runtime"
-	"sort"
-	"strings"
 	"testing"
-	"time"
 
-	"verif/sim/kernel"
-	"verif/sim/minimise"
-	"verif/sim/scen"
+	"verif/sim/workerlib"
 )
 
-var (
-	fScenario = flag.String("scenario", "", "scenario name")
-	fSeed     = flag.Uint64("seed", 1, "VERIF_SEED")
-	fFrom     = flag.Uint64("from", 0, "first run index")
-	fTo       = flag.Uint64("to", 1, "one past the last run index")
-	fStride   = flag.Uint64("stride", 1, "run index stride")
-	fOut      = flag.String("out", "", "summary output file (JSON)")
-	fMode     = flag.String("mode", "search", "search | replay | minimise | list")
-	fTrace    = flag.String("trace", "", "replay file (replay / minimise mode)")
-	fDeadline = flag.Duration("deadline", 0, "stop starting new runs after this much wall time")
-	fProgress = flag.String("progress", "", "file that always names the run in progress (crash attribution)")
-	fLogs     = flag.Bool("logs", false, "print per-run hashes")
-	fTier     = flag.String("tier", "quick", "tier")
-	fDump     = flag.Bool("dump", false, "search mode: keep and print the event log of every run")
-	fMaxViol  = flag.Int("maxviol", 3, "violations kept per (oracle,key)")
-)
-
-// Summary is what a worker reports for a range of runs.
-type Summary struct {
-	Scenario   string            `json:"scenario"`
-	Property   string            `json:"property"`
-	Seed       uint64            `json:"seed"`
-	Runs       int               `json:"runs"`
-	Steps      int64             `json:"steps"`
-	SimTimeNs  int64             `json:"sim_time_ns"`
-	WallS      float64           `json:"wall_s"`
-	Sigs       []uint64          `json:"sigs"` // distinct schedule signatures of non-trivial runs
-	NontrivN   int               `json:"nontrivial_runs"`
-	States     []uint64          `json:"states"`
-	Faults     map[string]int    `json:"faults"`
-	Probes     map[string]int    `json:"probes"`
-	Violations []FoundViolation  `json:"violations"`
-	Harness    []string          `json:"harness_errors"`
-	Hashes     map[string]string `json:"hashes,omitempty"`
-	Samples    []Sample          `json:"samples"`
-}
-
-type FoundViolation struct {
-	kernel.Violation
-	Run   uint64        `json:"run"`
-	Trace *kernel.Trace `json:"trace"`
-	Hash  string        `json:"hash"`
-}
-
-type Sample struct {
-	Run   uint64   `json:"run"`
-	Steps int      `json:"steps"`
-	SimS  float64  `json:"sim_s"`
-	Log   []string `json:"log"`
-}
-
-// ReplayFile is the on-disk replay format.
-type ReplayFile struct {
-	Property  string           `json:"property"`
-	Scenario  string           `json:"scenario"`
-	VerifSeed uint64           `json:"verif_seed"`
-	Run       uint64           `json:"run"`
-	Seed      uint64           `json:"run_seed"`
-	Toolchain string           `json:"toolchain"`
-	Violation kernel.Violation `json:"violation"`
-	Hash      string           `json:"event_log_hash"`
-	Trace     *kernel.Trace    `json:"trace"`
-	Minimised *MinInfo         `json:"minimised,omitempty"`
-	Log       []string         `json:"log,omitempty"`
-}
-
-type MinInfo struct {
-	OriginalChoices int     `json:"original_choices"`
-	Choices         int     `json:"choices"`
-	NonZero         int     `json:"nonzero_choices"`
-	Executions      int     `json:"executions"`
-	WallS           float64 `json:"wall_s"`
-}
-
-func runOne(t *testing.T, sc *scen.Scenario, seed uint64, replay *kernel.Trace, keep bool) *kernel.Result {
-	cfg := kernel.Config{Property: sc.Property, Scenario: sc.Name, Seed: seed, Replay: replay, KeepLog: keep, MaxSteps: sc.MaxSteps, Tier: *fTier}
-	return kernel.Run(t, cfg, sc.Run)
-}
-
-func TestWorker(t *testing.T) {
-	if *fMode == "list" {
-		type meta struct {
-			Name, Property, Doc, Level string
-			Quick, Thorough            int
-			Race                       bool
-			Real, Stub                 []string
-		}
-		var ms []meta
-		for _, n := range scen.Names() {
-			sc := scen.Get(n)
-			ms = append(ms, meta{sc.Name, sc.Property, sc.Doc, sc.Level, sc.Quick, sc.Thorough, sc.Race, sc.Real, sc.Stub})
-		}
-		writeJSON(*fOut, ms)
-		return
-	}
-	sc := scen.Get(*fScenario)
-	if sc == nil {
-		fmt.Fprintf(os.Stderr, "unknown scenario %q\n", *fScenario)
-		os.Exit(2)
-	}
-	go watchdog()
-	switch *fMode {
-	case "search":
-		search(t, sc)
-	case "replay":
-		replay(t, sc)
-	case "minimise":
-		doMinimise(t, sc)
-	default:
-		fmt.Fprintf(os.Stderr, "unknown mode %q\n", *fMode)
-		os.Exit(2)
-	}
-}
-
-func watchdog() {
-	last, lastT := kernel.Heartbeat(), time.Now()
-	for {
-		time.Sleep(5 * time.Second)
-		h := kernel.Heartbeat()
-		if h != last {
-			last, lastT = h, time.Now()
-			continue
-		}
-		if time.Since(lastT) > 150*time.Second {
-			buf := make([]byte, 1<<20)
-			n := runtime.Stack(buf, true)
-			fmt.Fprintf(os.Stderr, "WATCHDOG: no scheduler progress for 150s\n%s\n", buf[:n])
-			os.Exit(2)
-		}
-	}
-}
-
-func writeJSON(path string, v interface{}) {
-	b, err := json.MarshalIndent(v, "", " ")
-	if err != nil {
-		fmt.Fprintln(os.Stderr, "marshal:", err)
-		os.Exit(2)
-	}
-	if path == "" || path == "-" {
-		os.Stdout.Write(append(b, '\n'))
-		return
-	}
-	if err := os.WriteFile(path, b, 0644); err != nil {
-		fmt.Fprintln(os.Stderr, "write:", err)
-		os.Exit(2)
-	}
-}
-
-func search(t *testing.T, sc *scen.Scenario) {
-	start := time.Now()
-	sum := &Summary{Scenario: sc.Name, Property: sc.Property, Seed: *fSeed, Faults: map[string]int{}, Probes: map[string]int{}}
-	sigs := map[uint64]struct{}{}
-	states := map[uint64]struct{}{}
-	kept := map[string]int{}
-	if *fLogs {
-		sum.Hashes = map[string]string{}
-	}
-	for run := *fFrom; run < *fTo; run += *fStride {
-		if *fDeadline > 0 && time.Since(start) > *fDeadline {
-			break
-		}
-		if *fProgress != "" {
-			os.WriteFile(*fProgress, []byte(fmt.Sprintf("%d\n", run)), 0644)
-		}
-		seed := kernel.Mix(*fSeed, sc.Name, run)
-		res := runOne(t, sc, seed, nil, *fDump)
-		if *fDump {
-			fmt.Printf("== run %d seed %d hash %s\n%s\n", run, seed, res.Hash, strings.Join(res.Log, "\n"))
-		}
-		sum.Runs++
-		sum.Steps += int64(res.Steps)
-		sum.SimTimeNs += res.SimTimeNs
-		if res.Nontrivial {
-			sum.NontrivN++
-			sigs[res.SchedSig] = struct{}{}
-		}
-		for _, st := range res.States {
-			if len(states) < 200000 {
-				states[st] = struct{}{}
-			}
-		}
-		for k, v := range res.Faults {
-			sum.Faults[k] += v
-		}
-		for k, v := range res.Probes {
-			sum.Probes[k] += v
-		}
-		if res.Harness != "" {
-			sum.Harness = append(sum.Harness, fmt.Sprintf("run %d: %s", run, res.Harness))
-		}
-		for _, h := range kernel.TakeHarnessErrors() {
-			sum.Harness = append(sum.Harness, fmt.Sprintf("run %d: %s", run, h))
-		}
-		if sum.Hashes != nil {
-			sum.Hashes[fmt.Sprint(run)] = res.Hash
-		}
-		for _, v := range res.Violations {
-			k := v.Oracle + "\x00" + v.Key
-			if kept[k] < *fMaxViol {
-				kept[k]++
-				sum.Violations = append(sum.Violations, FoundViolation{Violation: v, Run: run, Trace: res.Trace, Hash: res.Hash})
-			}
-		}
-		if len(sum.Samples) < 2 && res.Nontrivial && len(res.Violations) == 0 && res.Steps < 400 {
-			// re-run the same seed with the log kept: a sample of what was explored
-			r2 := runOne(t, sc, seed, nil, true)
-			if r2.Hash != res.Hash {
-				sum.Harness = append(sum.Harness, fmt.Sprintf("run %d: NONDETERMINISM: same seed gave event-log hash %s then %s", run, res.Hash, r2.Hash))
-			}
-			lg := r2.Log
-			if len(lg) > 60 {
-				lg = append(lg[:60:60], fmt.Sprintf("... (%d more lines)", len(r2.Log)-60))
-			}
-			sum.Samples = append(sum.Samples, Sample{Run: run, Steps: r2.Steps, SimS: float64(r2.SimTimeNs) / 1e9, Log: lg})
-		}
-		if len(sum.Harness) > 5 {
-			break
-		}
-	}
-	if *fProgress != "" {
-		os.WriteFile(*fProgress, []byte("done\n"), 0644)
-	}
-	for k := range sigs {
-		sum.Sigs = append(sum.Sigs, k)
-	}
-	for k := range states {
-		sum.States = append(sum.States, k)
-	}
-	sort.Slice(sum.Sigs, func(i, j int) bool { return sum.Sigs[i] < sum.Sigs[j] })
-	sort.Slice(sum.States, func(i, j int) bool { return sum.States[i] < sum.States[j] })
-	sum.WallS = time.Since(start).Seconds()
-	writeJSON(*fOut, sum)
-}
-
-func loadReplay() *ReplayFile {
-	b, err := os.ReadFile(*fTrace)
-	if err != nil {
-		fmt.Fprintln(os.Stderr, "replay file:", err)
-		os.Exit(2)
-	}
-	var rf ReplayFile
-	if err := json.Unmarshal(b, &rf); err != nil {
-		fmt.Fprintln(os.Stderr, "replay file:", err)
-		os.Exit(2)
-	}
-	return &rf
-}
-
-func sameViolation(res *kernel.Result, want kernel.Violation) *kernel.Violation {
-	for i, v := range res.Violations {
-		if v.Oracle == want.Oracle && v.Key == want.Key {
-			return &res.Violations[i]
-		}
-	}
-	return nil
-}
-
-// replay re-executes a replay file; exit status 1 + VIOLATION line when the
-// recorded violation reproduces with the recorded event-log hash, 2 when the
-// execution diverges, 0 when the violation no longer occurs.
-func replay(t *testing.T, sc *scen.Scenario) {
-	rf := loadReplay()
-	// a replay file without a trace (process-crash class) replays from the run seed
-	res := runOne(t, sc, rf.Seed, rf.Trace, true)
-	for _, l := range res.Log {
-		fmt.Println(l)
-	}
-	v := sameViolation(res, rf.Violation)
-	if v == nil {
-		fmt.Printf("REPLAY: violation %s [%s] did not occur (violations now: %d, hash %s)\n", rf.Violation.Oracle, rf.Violation.Key, len(res.Violations), res.Hash)
-		if len(res.Violations) > 0 {
-			for _, o := range res.Violations {
-				fmt.Printf("REPLAY: other violation: %s [%s] %s\n", o.Oracle, o.Key, o.Msg)
-			}
-		}
-		os.Exit(0)
-	}
-	if rf.Hash != "" && res.Hash != rf.Hash {
-		fmt.Printf("REPLAY DIVERGED: violation reproduced but event-log hash %s != recorded %s\n", res.Hash, rf.Hash)
-		os.Exit(2)
-	}
-	fmt.Printf("REPLAY: reproduced: %s [%s] %s\n", v.Oracle, v.Key, v.Msg)
-	fmt.Printf("VIOLATION property=%s replay=%s\n", rf.Property, *fTrace)
-	os.Exit(1)
-}
-
-// doMinimise shrinks the trace of a replay file in-process and rewrites it.
-func doMinimise(t *testing.T, sc *scen.Scenario) {
-	rf := loadReplay()
-	start := time.Now()
-	execs := 0
-	test := func(vals []uint32) bool {
-		execs++
-		res := runOne(t, sc, rf.Seed, &kernel.Trace{Vals: vals}, false)
-		return sameViolation(res, rf.Violation) != nil
-	}
-	orig := rf.Trace.Vals
-	if !test(orig) {
-		fmt.Fprintf(os.Stderr, "minimise: the recorded trace does not reproduce %s [%s]\n", rf.Violation.Oracle, rf.Violation.Key)
-		os.Exit(2)
-	}
-	budget := 400
-	if *fDeadline == 0 {
-		*fDeadline = 90 * time.Second
-	}
-	small := minimise.Shrink(orig, func(v []uint32) bool {
-		if execs >= budget || time.Since(start) > *fDeadline {
-			return false
-		}
-		return test(v)
-	})
-	res := runOne(t, sc, rf.Seed, &kernel.Trace{Vals: small}, true)
-	v := sameViolation(res, rf.Violation)
-	if v == nil {
-		fmt.Fprintln(os.Stderr, "minimise: minimised trace stopped reproducing; keeping the original")
-		res = runOne(t, sc, rf.Seed, &kernel.Trace{Vals: orig}, true)
-		v = sameViolation(res, rf.Violation)
-		small = orig
-		if v == nil {
-			os.Exit(2)
-		}
-	}
-	// normalise: the recorded choices of the final run are the canonical trace
-	rf.Trace = res.Trace
-	rf.Hash = res.Hash
-	rf.Violation = *v
-	rf.Log = res.Log
-	nz := 0
-	for _, x := range res.Trace.Vals {
-		if x != 0 {
-			nz++
-		}
-	}
-	rf.Minimised = &MinInfo{OriginalChoices: len(orig), Choices: len(res.Trace.Vals), NonZero: nz, Executions: execs, WallS: time.Since(start).Seconds()}
-	rf.Toolchain = runtime.Version()
-	out := *fOut
-	if out == "" {
-		out = *fTrace
-	}
-	writeJSON(out, rf)
-	fmt.Printf("minimised %d -> %d choices (%d non-zero) in %d executions: %s\n", len(orig), len(res.Trace.Vals), nz, execs, strings.SplitN(v.Msg, "\n", 2)[0])
-}
+func TestWorker(t *testing.T) { workerlib.Main(t) }
